@@ -97,6 +97,8 @@ EXPLAIN_CONTENT = {
     'O6-cover': ('a state of the active chain is exited before any common-ancestor test has passed, i.e. it is given up as a candidate, but it has not been compared with every '
                  'ancestor of the target (slots 0..frontier), or the target\'s ancestor path was not collected up to the outermost state: the common ancestor can be missed, and '
                  'the climb then exits states above it (up to and including the outermost state) and never finds a match'),
+    'O5-first': ('the first ENTRY after an initial transition (or after start) does not go to the state just below the one that took the transition: the walk that collects the entry '
+                 'path did not stop at that state, so states that are already active are entered a second time (or states are skipped)'),
     'O6-lca': ('where the entry-path routine returns, the exits made and the entry index do not meet at one tested common state: it must have compared a state of the active '
                'chain at depth m with an ancestor of the target at depth q (identity/equality test passed on this path), have exited exactly the m states below it, and '
                'return q-1 so that entry starts just below it (for source == target the pair of parents is the common state: exit and re-enter the source)'),
@@ -116,7 +118,7 @@ def content_analysis(model, entry_name, cursor_at_entry):
 def record_content_obligations(run, model, entry_name, cursor_at_entry=False, rule='HSM-CONTENT', kinds=None):
     """slot k of the path buffer holds the k-th ancestor of the target whenever it is used for entry (ghost frontier K, ghost depths d)"""
     ca, res = content_analysis(model, entry_name, cursor_at_entry)
-    counts = {'O4-content': 0, 'O5-content': 0, 'O6-exit': 0, 'O6-lca': 0, 'O7-noraise': 0, 'O8-offer': 0, 'O9-init': 0, 'O6-min': 0, 'O6-cover': 0}
+    counts = {'O4-content': 0, 'O5-content': 0, 'O6-exit': 0, 'O6-lca': 0, 'O7-noraise': 0, 'O8-offer': 0, 'O9-init': 0, 'O6-min': 0, 'O6-cover': 0, 'O5-first': 0}
     for o in res:
         if o['kind'] not in counts or (kinds is not None and o['kind'] not in kinds):
             continue
